@@ -6,7 +6,7 @@ import Kskm.Ops.Core
 import Kskm.Ops.PkgC
 open Lean Kskm Kskm.Ops
 
-def allOps : List (String × Op) := coreOps ++ pkgCOps
+def allOps : List (String × Op) := coreOps ++ pkgCOps ++ pkgCOps2
 
 def handleLine (line : String) : String :=
   match Json.parse line with
